@@ -41,7 +41,37 @@ std::shared_ptr<BaseFftPlanR> _get_rfft_plan(int n) {
     return std::make_shared<FactorFFTPlanR>(n);
 }
 
+#ifdef DSPLIB_VERIF
+thread_local const LRUCache<int, std::shared_ptr<BaseFftPlanC>>* verif_fft_cache = nullptr;
+thread_local const LRUCache<int, std::shared_ptr<BaseFftPlanR>>* verif_rfft_cache = nullptr;
+#endif
+
 }   // namespace
+
+#ifdef DSPLIB_VERIF
+//verification hooks (read-only): keys held by the calling thread's plan caches, most recently used first
+namespace verif {
+std::vector<int> fft_cache_keys() {
+    std::vector<int> r;
+    if (verif_fft_cache != nullptr) {
+        verif_fft_cache->verif_keys(r);
+    }
+    return r;
+}
+
+std::vector<int> rfft_cache_keys() {
+    std::vector<int> r;
+    if (verif_rfft_cache != nullptr) {
+        verif_rfft_cache->verif_keys(r);
+    }
+    return r;
+}
+
+int fft_cache_capacity() {
+    return FFT_CACHE_SIZE;
+}
+}   // namespace verif
+#endif
 
 //-------------------------------------------------------------------------------------------------
 std::shared_ptr<BaseFftPlanC> create_fft_plan(int n) {
@@ -52,6 +82,9 @@ std::shared_ptr<BaseFftPlanC> create_fft_plan(int n) {
 
     //TODO: use weak_ptr cache to prevent duplication
     thread_local LRUCache<int, std::shared_ptr<BaseFftPlanC>> cache{FFT_CACHE_SIZE};
+#ifdef DSPLIB_VERIF
+    verif_fft_cache = &cache;
+#endif
     if (!cache.exists(n)) {
         auto plan = _get_fft_plan(n);
         cache.put(n, plan);
@@ -66,6 +99,9 @@ std::shared_ptr<BaseFftPlanR> create_rfft_plan(int n) {
     }
 
     thread_local LRUCache<int, std::shared_ptr<BaseFftPlanR>> cache{FFT_CACHE_SIZE};
+#ifdef DSPLIB_VERIF
+    verif_rfft_cache = &cache;
+#endif
     if (!cache.exists(n)) {
         auto plan = _get_rfft_plan(n);
         cache.put(n, plan);
